@@ -106,6 +106,11 @@ type Opts struct {
 	JoinCluster bool
 	// KeepLog writes the full output to Dir/server.out as well
 	KeepLog bool
+	// ConfLayout chooses how the configuration file is laid out (what a user's file may look like):
+	// 0 LF lines with a final newline, 1 LF lines and no newline after the last directive, 2 CRLF lines separated by
+	// blank lines with no newline after the last directive (the layout of the shipped redis.conf), 3 the databases
+	// directive first, comments and upper-case directive names in between. "databases" is the last directive in 0-2.
+	ConfLayout int
 }
 
 // Server is one running process.
@@ -132,7 +137,18 @@ func Start(o Opts) (*Server, error) {
 	if err := os.MkdirAll(filepath.Join(o.Dir, "log"), 0o755); err != nil {
 		return nil, err
 	}
-	conf := fmt.Sprintf("host 127.0.0.1\nport %d\nlogdir %s\nloglevel error\nshardnum %d\ndatabases %d\n", o.Port, filepath.Join(o.Dir, "log"), o.ShardNum, o.Databases)
+	lines := []string{"host 127.0.0.1", fmt.Sprintf("port %d", o.Port), "logdir " + filepath.Join(o.Dir, "log"), "loglevel error", fmt.Sprintf("shardnum %d", o.ShardNum), fmt.Sprintf("databases %d", o.Databases)}
+	var conf string
+	switch o.ConfLayout {
+	case 1:
+		conf = strings.Join(lines, "\n")
+	case 2:
+		conf = strings.Join(lines, "\r\n\r\n")
+	case 3:
+		conf = "# generated\n" + fmt.Sprintf("DATABASES %d", o.Databases) + "\n\n# network\n" + strings.Join(lines[:5], "\n") + "\n"
+	default:
+		conf = strings.Join(lines, "\n") + "\n"
+	}
 	confPath := filepath.Join(o.Dir, "redis.conf")
 	if err := os.WriteFile(confPath, []byte(conf), 0o644); err != nil {
 		return nil, err
